@@ -91,6 +91,15 @@ def gen_history(r, cid, nops, modelled_only):
         elif t < 92: ops.append(probe(k))
         elif t < 96: ops.append('s')
         else: ops.append('t')
+        if r.chance(1, 14):
+            # Insert(begin, end): ordered runs (fast path), runs with duplicates, partially unordered input
+            m = r.choice([1, 2, 3, mc + 1, 2 * mc + 3, 12]); base_k = key(); kind_n = r.below(4)
+            if kind_n == 0: run = [base_k + j for j in range(m)]
+            elif kind_n == 1: run = sorted(base_k + r.below(4) for _ in range(m))
+            elif kind_n == 2: run = [base_k + r.below(2 * m + 1) for _ in range(m)]
+            else: run = sorted(base_k + r.below(3 * m) for _ in range(m)); run[r.below(len(run))] = base_k + r.below(3 * m)
+            ops.append('n%s' % ','.join(str(x) for x in run)); size[0] += m
+            if r.chance(1, 2): ops.append('s')
         if r.chance(1, 12):
             lo = r.below(size[0] + 2); ops.append('g%d:%d' % (lo, lo + r.choice([0, 1, 2, 3, r.below(size[0] + 2)])))
             if r.chance(1, 2): ops.append('s')
